@@ -155,6 +155,8 @@ func runC15(c *runCtx) {
 		panic("C15 needs the git-bug binary (VERIF_GITBUG)")
 	}
 	c15Trees(c)
+	c15PackedRefs(c, gb)
+	cleanupScratch()
 	N := c.pick(3, 16)
 	for i := 0; i < N; i++ {
 		c15Session(c, c.rng.fork(), gb, i)
@@ -242,7 +244,48 @@ func c15Session(c *runCtx, r *rng, gb string, n int) {
 	w := newC15World(r, n%3 == 2)
 	var log []string
 	snapA, snapB, snapO := hostSnapshot(w.a, false), hostSnapshot(w.b, false), hostSnapshot(w.origin, true)
+	nullRefs := func(dir string, bare bool) []string {
+		gitDir := filepath.Join(dir, ".git")
+		if bare {
+			gitDir = dir
+		}
+		var bad []string
+		filepath.Walk(filepath.Join(gitDir, "refs"), func(p string, info os.FileInfo, err error) error {
+			if err == nil && !info.IsDir() {
+				if b, err := os.ReadFile(p); err == nil {
+					t := strings.TrimSpace(string(b))
+					okRef := strings.HasPrefix(t, "ref: ") || len(t) == 40 && strings.Trim(t, "0123456789abcdef") == "" && t != "0000000000000000000000000000000000000000"
+					if !okRef {
+						rel, _ := filepath.Rel(gitDir, p)
+						bad = append(bad, fmt.Sprintf("%s (content %q)", rel, trunc(string(b), 60)))
+					}
+				}
+			}
+			return nil
+		})
+		if b, err := os.ReadFile(filepath.Join(gitDir, "packed-refs")); err == nil {
+			for _, l := range strings.Split(string(b), "\n") {
+				if strings.HasPrefix(l, "0000000000000000000000000000000000000000 ") {
+					bad = append(bad, "packed:"+strings.Fields(l)[1])
+				}
+			}
+		}
+		return bad
+	}
+	reportedNull := map[string]bool{}
 	check := func(what string) {
+		for _, x := range []struct {
+			name string
+			dir  string
+			bare bool
+		}{{"A", w.a, false}, {"B", w.b, false}, {"origin", w.origin, true}} {
+			for _, ref := range nullRefs(x.dir, x.bare) {
+				if !reportedNull[x.name+ref] {
+					reportedNull[x.name+ref] = true
+					c.violation(c.nCases, "C15/null-ref", fmt.Sprintf("after %q the ref %s of repository %s does not hold an object id: stock git (fsck, gc, repack) refuses the repository (session %v)", what, ref, x.name, log), map[string]any{"action": what, "ref": ref})
+				}
+			}
+		}
 		for _, x := range []struct {
 			name string
 			dir  string
@@ -567,5 +610,48 @@ func c15Trees(c *runCtx) {
 		c.emit(map[string]any{"cmd": "tree", "entries": ej}, map[string]any{"order": order, "ok": ok})
 		c.count(fmt.Sprintf("tree-ok=%v", ok))
 		c.nontrivial(mustJSON(ej))
+	}
+}
+
+// c15PackedRefs: git packs refs (gc does, and git runs gc by itself); a pull that then updates a
+// bug must leave a repository stock git still accepts.
+func c15PackedRefs(c *runCtx, gb string) {
+	for _, packer := range [][]string{{"pack-refs", "--all"}, {"gc", "-q"}} {
+		w := newC15World(c.rng.fork(), false)
+		step := func(dir string, args ...string) {
+			if out, err := c15GB(gb, dir, args...); err != nil {
+				c.violation(c.nCases, "C15/command-failed", fmt.Sprintf("packed refs (%v): git-bug %v failed: %s", packer, args, trunc(out, 300)), map[string]any{"packer": packer})
+			}
+		}
+		c.context(fmt.Sprintf("pull after git %v", packer))
+		step(w.a, "user", "new", "-n", "Ann", "-e", "ann@example.com", "--non-interactive")
+		step(w.b, "user", "new", "-n", "Bob", "-e", "bob@example.com", "--non-interactive")
+		step(w.a, "bug", "new", "-t", "packed refs", "-m", "first")
+		step(w.a, "push", "origin")
+		step(w.b, "pull", "origin")
+		mustGit(w.b, packer...) // the host's own housekeeping
+		ids := bugIdsCLI(gb, w.a)
+		if len(ids) == 0 {
+			c.violation(c.nCases, "C15/harness", "no bug to edit", nil)
+			continue
+		}
+		step(w.a, "bug", "comment", "new", ids[0][:10], "-m", "after the refs were packed")
+		step(w.a, "push", "origin")
+		before := hostSnapshot(w.b, false)
+		step(w.b, "pull", "origin")
+		if d := diffSnap(before, hostSnapshot(w.b, false)); d != "" {
+			c.violation(c.nCases, "C15/host-disturbed", fmt.Sprintf("pull after git %v changed something that is not git-bug's: %s", packer, d), nil)
+		}
+		if bad := fsckStrict(w.b); bad != "" {
+			c.violation(c.nCases, "C15/fsck", fmt.Sprintf("after git %v and a pull that updates a bug: git fsck --strict: %s", packer, trunc(bad, 300)), map[string]any{"packer": packer})
+		}
+		if out, err := gitIn(w.b, "gc", "-q"); err != nil {
+			c.violation(c.nCases, "C15/gc", fmt.Sprintf("after git %v and a pull that updates a bug: git gc fails: %s", packer, trunc(out, 300)), map[string]any{"packer": packer})
+		}
+		if all := c15ReadAll(w.b); len(all[ids[0]]) != 2 {
+			c.violation(c.nCases, "C15/pull-incomplete", fmt.Sprintf("after git %v the pull did not bring the new comment: %v", packer, all), nil)
+		}
+		c.count("packed-refs=" + packer[0])
+		c.nontrivial("packed|" + packer[0])
 	}
 }
